@@ -234,6 +234,10 @@ type UpdateTran struct {
 	ct *CkTran
 	ReadTran
 	writeCount int
+	// deleting is the records currently being deleted (by Delete and the
+	// cascading deletes it started). It stops cycles of foreign keys
+	// within a table (e.g. a record that references itself).
+	deleting map[uint64]struct{}
 }
 
 func (db *Database) NewUpdateTran() *UpdateTran {
@@ -453,6 +457,14 @@ func (t *ReadTran) fkeyOutputExists(table string, iIndex int, key string) bool {
 
 func (t *UpdateTran) Delete(th *core.Thread, table string, off uint64) {
 	trace.Dbms.Println("tran Delete", table, off)
+	if _, ok := t.deleting[off]; ok {
+		return // cascade came back to a record that is already being deleted
+	}
+	if t.deleting == nil {
+		t.deleting = make(map[uint64]struct{})
+	}
+	t.deleting[off] = struct{}{}
+	defer delete(t.deleting, off)
 	t.write()
 	ts := t.getSchema(table)
 	rec := t.GetRecord(off)
